@@ -143,3 +143,14 @@ func specProbeID(u *udpDriver, ttl uint8) uint16 {
 //@ lemma[C06.inject4]     forall(a, 0, 256, forall(b, 0, 256, a != b ==> (41821 + a) % 65536 != (41821 + b) % 65536))
 //@ lemma[C06.inject6]     forall(a, 0, 256, forall(b, 0, 256, a != b ==> (13 + a) % 65536 != (13 + b) % 65536))
 //@ modifies u.mu, map(u.sentProbes), UDPv4.buffer, ghost clock, ghost wrN, ghost wrClock
+
+//@ func (*udpDriver).ReceiveProbe
+//@ safety C09
+//@ requires[pre.nonnil]     u != nil && u.source != nil && u.parser != nil && u.parser.parserv4 != nil && u.parser.parserv6 != nil && u.config != nil
+//@ requires[pre.past]       forall(k, 0, 65536, u.sentProbes[k].sendTime <= now())
+//@ ensures[C09.recv.xor]    (ret0 == nil) != (ret1 == nil)
+//@ ensures[C09.recv.class]  ret1 != nil && !chain(ret1, *common.ReceiveProbeNoPktError) && !chain(ret1, *common.BadPacketError) ==> ioFail
+//@ ensures[C09.recv.io]     ioFail == old(ioFail) || ret1 != nil
+//@ ensures[C01.recv.fresh]  ret0 != nil ==> fresh(ret0)
+//@ ensures[C09.recv.state]  forall(k, 0, 65536, u.sentProbes[k] == old(u.sentProbes[k]) && has(u.sentProbes, k) == old(has(u.sentProbes, k)))
+//@ modifies u.mu, packets.FrameParser.IP4, packets.FrameParser.IP6, packets.FrameParser.TCP, packets.FrameParser.ICMP4, packets.FrameParser.ICMP6, packets.FrameParser.Payload, packets.FrameParser.Layers, gopacket.DecodingLayerParser, elems(u.buffer), ghost clock, ghost ioFail
